@@ -38,6 +38,7 @@ func runC11(c *Ctx) {
 	p := c.P
 	storedIsParam(c, p, "R2", "common/replayfilter.entry", "firstSeen", "common/replayfilter:(*ReplayFilter).TestAndSet", "now", "the time-to-live is measured from the instant the caller named, to the nanosecond")
 	mapValuesOwnAlloc(c, p, "R3", "common/replayfilter:(*ReplayFilter).TestAndSet", "filter entry")
+	storesOnlyIntoOwnAlloc(c, p, "R2", "common/replayfilter.entry", "firstSeen", "common/replayfilter:(*ReplayFilter).TestAndSet", "a hit must not refresh the time stamp (the entry would outlive its time-to-live and, staying at its place in the FIFO, shield younger expired entries from the purge)")
 	tas := p.Func("common/replayfilter:(*ReplayFilter).TestAndSet")
 	ob := c.Obl("R0", "anchors", "ReplayFilter.TestAndSet exists")
 	if tas == nil {
